@@ -46,6 +46,11 @@ var solvers = []solverDef{
 	{"z3-new/ematch", func(f string, t, seed int) []string {
 		return []string{"-T:" + itoa((t+999)/1000), "smt.random_seed=" + itoa(seed), "smt.mbqi=false", "smt.qi.eager_threshold=100", f}
 	}, "z3-new", 0},
+	// auto_config=false keeps z3 from picking a (here: slow) tactic from the formula's shape;
+	// several heap-frame obligations over append are decided in 0.5 s this way and in > 30 s otherwise
+	{"z3-new/noauto", func(f string, t, seed int) []string {
+		return []string{"-T:" + itoa((t+999)/1000), "smt.random_seed=" + itoa(seed), "smt.auto_config=false", f}
+	}, "z3-new", 0},
 	{"z3-new/seedN", func(f string, t, seed int) []string {
 		return []string{"-T:" + itoa((t+999)/1000), "smt.random_seed=" + itoa(seed), f}
 	}, "z3-new", 0},
@@ -200,8 +205,8 @@ func RunRestarts(file string, timeout time.Duration, seed int, only string, all 
 	for pending > 0 {
 		select {
 		case <-stagger.C:
-			// second wave: two more strategies; the rest follows after another two seconds
-			wave := 2
+			// second wave: three more strategies; the rest follows after another two seconds
+			wave := 3
 			if all || launched > 1 {
 				wave = len(use)
 			}
